@@ -1,6 +1,7 @@
 package props
 
 import (
+	"strings"
 	"bytes"
 	"fmt"
 	"strconv"
@@ -135,6 +136,10 @@ func genArMember(t *rapid.T, label string) ArMember {
 	m.Mode = strconv.FormatInt(int64(rapid.IntRange(0, 0o77777777).Draw(t, label+"mode")), 8)
 	if rapid.IntRange(0, 2).Draw(t, label+"stdmode") == 0 {
 		m.Mode = "100644"
+	}
+	if rapid.IntRange(0, 5).Draw(t, label+"modezeros") == 0 && len(m.Mode) < 8 {
+		// the mode column is text: leading zeros ("0644", "0100644", "000000") are part of it
+		m.Mode = strings.Repeat("0", rapid.IntRange(1, 8-len(m.Mode)).Draw(t, label+"mz")) + m.Mode
 	}
 	m.BlankM = rapid.IntRange(0, 5).Draw(t, label+"bm") == 0
 	m.BlankU = rapid.IntRange(0, 5).Draw(t, label+"bu") == 0
